@@ -262,6 +262,10 @@ class HeapBalancerSink(LoadBalancerSink):
       i = n.index
       Heap.Swap(self._heap, i, self._size)
       Heap.FixDown(self._heap, i, self._size - 1)
+      if i != self._size:
+        # The element moved into position i came from another subtree and may
+        # be smaller than its new parent.
+        Heap.FixUp(self._heap, i)
 
       j = random.randint(1, self._size)
       Heap.Swap(self._heap, j, self._size)
@@ -316,6 +320,10 @@ class HeapBalancerSink(LoadBalancerSink):
     i = node.index
     Heap.Swap(self._heap, i, self._size)
     Heap.FixDown(self._heap, i, self._size - 1)
+    if i != self._size:
+      # The element moved into position i came from another subtree and may
+      # be smaller than its new parent.
+      Heap.FixUp(self._heap, i)
     self._heap.pop()
     self._size -= 1
     self.__varz.size(self._size)
